@@ -173,6 +173,7 @@ def ensure(root=None, want_ir=False, cfgs=("N", "A")):
         try:
             _prune_cache(keep=h)
             os.makedirs(d, exist_ok=True)
+            os.utime(d, None)
             cdbp = os.path.join(d, "compdb.json")
             if not os.path.exists(cdbp):
                 db = make_compdb(root)
@@ -206,16 +207,25 @@ def ensure(root=None, want_ir=False, cfgs=("N", "A")):
 
 
 def _prune_cache(keep):
-    """Keep disk use bounded: drop cache entries of other trees, oldest first,
-    beyond the 3 most recent."""
+    """Keep disk use bounded: drop cache entries of other trees that have not
+    been used for two hours (never one that may be in use by a concurrent run),
+    and always keep the 12 most recent."""
+    import time
     try:
         ents = [e for e in os.listdir(CACHE)
                 if os.path.isdir(os.path.join(CACHE, e)) and e != keep and not e.startswith("btv-")]
     except OSError:
         return
+    now = time.time()
     ents.sort(key=lambda e: os.path.getmtime(os.path.join(CACHE, e)), reverse=True)
-    for e in ents[3:]:
-        shutil.rmtree(os.path.join(CACHE, e), ignore_errors=True)
+    for e in ents[12:]:
+        pth = os.path.join(CACHE, e)
+        try:
+            if now - os.path.getmtime(pth) < 7200:
+                continue
+        except OSError:
+            continue
+        shutil.rmtree(pth, ignore_errors=True)
         try:
             os.unlink(os.path.join(CACHE, e + ".lock"))
         except OSError:
